@@ -339,6 +339,32 @@ let run_case id kind cap ordered overhead ops =
     | ["M"; ov; pre] ->
       flush ();
       stream_to b (small (n_of_string ov)) (small (n_of_string pre))
+    | ["N"; kd; ovr; oh; ci] ->
+      (* the save waits for the state machine lock the Update holds: it describes the replica after the task *)
+      let q = { q_exported = (kd = "x"); q_override = (ovr = "1"); q_overhead = n_of_string oh; q_cindex = n_of_string ci } in
+      let pend = pending () in
+      flushed := !nlog;
+      deliver a pend;
+      if pend <> [] && not b.lag then deliver b pend;
+      let idx = do_save b q [] in
+      emit (Printf.sprintf "N idx=%s pending=%s" (string_of_n idx) (string_of_n b.ns.n_compact_to));
+      let before = remove_log b in
+      new_removals b before
+    | ["O"] ->
+      flush ();
+      (match b.img with
+       | Some (img, _) when b.ns.n_lr_snapshot <> N0 ->
+         (* StateMachine.doRecover: a snapshot at or below the applied index is refused *)
+         let got =
+           match rsm_recover cfg false b.st img with
+           | Err _ -> raise Panic
+           | Ok RecOutOfDate -> N0
+           | Ok (Recovered st') -> b.st <- st'; img.i_index in
+         b.ns <- nstep overhead b.ns (NRecover (got <> N0, false));
+         let before = remove_log b in
+         emit (Printf.sprintf "O from=%s %s | %s" (string_of_n got) (show_obs b.st) (show_aux b.st));
+         new_removals b before
+       | _ -> emit "O no-record")
     | ["Q"; kd; ovr; oh; ci] ->
       let q = { q_exported = (kd = "x"); q_override = (ovr = "1"); q_overhead = n_of_string oh; q_cindex = n_of_string ci } in
       flush ();
